@@ -529,12 +529,14 @@ package scanner
 //@   ensures imp(result == nil, s.stack[len(s.stack)-1].scanner == scanner && s.stack[len(s.stack)-1].at == at)
 
 //@ func (*Stack).Pop(s)
-//@   property C14,C01
+//@   property C14,C01,C07
 //@   requires stackInv(s)
 //@   modifies s.uniqueFiles[:], s.stack, s.hashes
 //@   ensures imp(old(len(s.stack)) == 0, result == nil && len(s.stack) == 0)
 //@   ensures imp(old(len(s.stack)) > 0, result != nil && result == old(s.stack[len(s.stack)-1].scanner) && len(s.stack) == old(len(s.stack)) - 1)
-//@   ensures s.stack.arr == old(s.stack.arr) && s.stack.off == old(s.stack.off) && len(s.hashes) == len(s.stack)
+//@   ensures s.stack.arr == old(s.stack.arr) && s.stack.off == old(s.stack.off)
+// the hash that selects the cached include tracer shrinks with the stack (C07: a directive is traced through the INCLUDEs that are open)
+//@   ensures[C07,C14,C01,@hashes-track-stack] len(s.hashes) == len(s.stack)
 //@   ensures itemsOK(s)
 //@   ensures[C14,@include-reopen] imp(result != nil, !has(s.uniqueFiles, result.file.name))
 // Ownership fact that the typed-heap model cannot express (no separation logic): a scanner was not reachable from
